@@ -61,7 +61,9 @@ MIXED = {
         "the serialiser chose - is written to shared memory under the dataset's own key and the dataset is announced once, after the buffer is closed, never on failure) and Memory.provide (a held value is "
         "handed out unchanged; otherwise it is fetched under the dataset's own key and decoded with the function stored next to the bytes) - 23 VCs. ser_output/des_output are uninterpreted. ",
  "C02": "Proved by pyvc+z3 (for all inputs): controller.act.act sends exactly the assignment's tasks to the assignment's worker and only transfers datasets into the assignment's host; notify.is_last_output_of. ",
- "C03": "Proved by pyvc+z3: scheduler.core.has_awaitable / has_computable agree with their definitions over the whole State (the loop guard of controller.impl.run). ",
+ "C03": "Proved by pyvc+z3: scheduler.core.has_awaitable / has_computable agree with their definitions over the whole State (the loop guard of controller.impl.run); controller.impl.run itself, with every step of the loop "
+        "(initialize / assign / act / plan / flush_queues / notify / bridge / reporter) an ASSUMED contract that may change the State arbitrarily and may raise: on every way out of the loop - completion, "
+        "an exception from any step - the last two things it does are bridge.shutdown() and reporter.shutdown(), and a normal return hands back the state (68 VCs). ",
  "C04": "Proved by pyvc+z3: notify.consider_purge purges a dataset only when no task that consumes it is still to run / running and it is not a requested output still to be fetched, and touches no other dataset; "
         "notify.consider_fetch queues a fetch only for a requested output not yet fetched; notify.is_last_output_of; Bridge.transmit / fetch / purge / task_sequence put exactly one command on the wire, "
         "to the source's data server (resp. the named host), naming source, target, dataset, the TARGET's data address and an index never used before (75 VCs). ",
